@@ -26,6 +26,16 @@ def mk_other_region(b, name):
     return b.new("Position")  # some object that is not a region
 
 
+def containment_sound(f, outer_contains):
+    """C17(c): reported containment implies point-set inclusion.  The universally quantified point is
+    the ghost point (px, py): arbitrary when the method is verified, and the *caller's* ghost point when
+    the contract is used at a call site (instantiation of the proved universal statement)."""
+    if f.exc is not None or "px" not in f.g:
+        return True
+    px, py = f.g["px"], f.g["py"]
+    return Implies(And(f.result, G.region_contains(f.a.otherRegion, px, py)), outer_contains(f.self, px, py))
+
+
 # ---------------------------------------------------------------- RectangularRegion
 @contract("RectangularRegion.RectangularRegion.__init__")
 def _(c):
@@ -47,7 +57,6 @@ def _(c):
 @contract("RectangularRegion.RectangularRegion.containsPoint")
 def _(c):
     c.pre(lambda b: {"self": mk_rect(b, "self"), "args": {"x": b.real("x"), "y": b.real("y")}})
-    c.requires("rect-invariant", lambda f: G.rect_ok(f.self))
     c.modifies()
     c.ensures("C17.closed-rectangle", lambda f: Iff(f.result, G.rect_contains(f.self, f.a.x, f.a.y)),
               props=("C17", "C01", "C12"))
@@ -61,14 +70,12 @@ def _(c):
         return {"self": mk_rect(b, "self"), "args": {"otherRegion": mk_other_region(b, "other")},
                 "ghost": {"px": b.real("p.x"), "py": b.real("p.y")}}
     c.pre(pre)
-    c.requires("rect-invariant", lambda f: G.rect_ok(f.self))
     c.modifies()
     c.raises("ValueError", when=lambda f: not (G.is_rect(f.a.otherRegion) or G.is_circle(f.a.otherRegion)))
     # C17(c): reported containment implies point-set inclusion (p is the skolemised point)
-    c.ensures("C17.containment-sound", lambda f: Implies(
-        And(f.exc is None, f.result if f.exc is None else False,
-            G.region_contains(f.a.otherRegion, f.g["px"], f.g["py"]) if f.exc is None else False),
-        G.rect_contains(f.self, f.g["px"], f.g["py"])), props=("C17", "C12"))
+    c.ensures("C17.containment-sound", lambda f: containment_sound(f, G.rect_contains), props=("C17", "C12"))
+    c.result("bool")
+    c.use_modular()
 
 
 # ---------------------------------------------------------------- CircularRegion
@@ -99,11 +106,8 @@ def _(c):
         return {"self": mk_circle(b, "self"), "args": {"otherRegion": mk_other_region(b, "other")},
                 "ghost": {"px": b.real("p.x"), "py": b.real("p.y")}}
     c.pre(pre)
-    c.requires("other-rect-invariant",
-               lambda f: G.rect_ok(f.a.otherRegion) if G.is_rect(f.a.otherRegion) else True)
     c.modifies()
     c.raises("ValueError", when=lambda f: not (G.is_rect(f.a.otherRegion) or G.is_circle(f.a.otherRegion)))
-    c.ensures("C17.containment-sound", lambda f: Implies(
-        And(f.exc is None, f.result if f.exc is None else False,
-            G.region_contains(f.a.otherRegion, f.g["px"], f.g["py"]) if f.exc is None else False),
-        G.circle_contains(f.self, f.g["px"], f.g["py"])), props=("C17", "C12"))
+    c.ensures("C17.containment-sound", lambda f: containment_sound(f, G.circle_contains), props=("C17", "C12"))
+    c.result("bool")
+    c.use_modular()
